@@ -91,7 +91,7 @@ func semPost(cr *caseRun) {
 	}
 	_ = os.WriteFile(filepath.Join(cr.Dir, "pk", "sem_helpers_test.go"), []byte(sem.HelpersSrc), 0o644)
 	_ = os.WriteFile(filepath.Join(cr.Dir, "pk", "sem_driver_test.go"), []byte(sem.Driver(fs, srcTypes)), 0o644)
-	cmd := exec.Command("go", "test", "-vet=off", "-count=1", "-run", "TestSem", "./pk")
+	cmd := exec.Command("go", "test", "-v", "-vet=off", "-count=1", "-run", "TestSem", "./pk")
 	cmd.Dir = cr.Dir
 	cmd.Env = tool.BaseEnv()
 	out, err := cmd.CombinedOutput()
